@@ -90,3 +90,17 @@ CHECKS["C16"] = {
     "note": TRUST + " Set-Cookie enters through update_cookies_from_headers (the ClientSession path); clock = aiohttp.cookiejar.time rebound; no public-suffix list; "
             "when several same-named cookies match, the jar's single value must be one of the reference's.",
 }
+
+CHECKS["C14"] = {
+    "engine": "SEQ",
+    "design_ref": "§3 C14, §2.6",
+    "technique": "exhaustive enumeration of route tables x registration orders x request lattice on the real UrlDispatcher vs a linear reference rule",
+    "text": "Every single resource, every ordered pair and every ordered triple of resources from template pools (plain / {var} / {var:regex} / mid-segment variable / "
+            "catch-all / segments needing quoting, with and without trailing slash, x method sets), sub-applications mounted on 3-4 prefixes before and after parent "
+            "resources (nested once) and domain / mask-domain sub-applications are built on a real web.Application; each is queried with 199 raw request paths "
+            "(percent-encoded, empty and repeated segments) x GET/POST/PUT (x 7 Host values) through the real request parser and UrlDispatcher.resolve and compared with the "
+            "documented rule computed from the template text: handler, match_info, 404 vs 405 and the allowed set.  url_for o resolve = identity over 16 parameter values per "
+            "variable (also under mounted prefixes), and every normalize_path_middleware redirect over all <=3-4 token targets from a 12-token alphabet stays on-site.",
+    "note": TRUST + " quick caps the pair/triple sections at the stated pools (reported as pools, not caps); a mounted sub-application claims its subtree and a matching domain "
+            "sub-application is final, as the code documents.",
+}
